@@ -94,4 +94,12 @@ JSignedProbe(e) ==
        r.indep.sig_ok /\ r.indep.off_ok, cls),
      \* calibration (counts only): honest structures that the library verifies; without them the adversarial steps would be vacuous
      R("C05", "honest_structure_verified_by_library", r.setup /\ e.adv.kind = "none" /\ r.pre.verify_ok, r.indep.sig_ok /\ r.indep.off_ok, cls) >>
+\* a reference skeleton together with its slots: the driver puts real keys and signatures there (buildSigned), so the structure verifies
+SignedShape(fn, base, st, typ) ==
+  LET sl == SlotsOf(fn, base, typ) IN
+  [fn |-> fn, in |-> base, base |-> base, st |-> st, typ |-> typ, prefix |-> StoreTypePrefix(fn), signed |-> TRUE, stream |-> 7,
+   idkey |-> [off |-> sl.idoff, len |-> sl.idlen], sig |-> [off |-> sl.sigoff, len |-> sl.siglen]]
+  @@ (IF sl.off THEN [offline |-> [keyoff |-> sl.keyoff, keylen |-> sl.keylen, tst |-> (IF fn = "ReadEncryptedLeaseSet" THEN RefEncryptedLeaseSet(base).tst
+                                                                                        ELSE IF fn = "ReadLeaseSet2" THEN RefLeaseSet2(base).h.tst ELSE RefMetaLeaseSet(base).h.tst),
+                                   sigoff |-> sl.osigoff, siglen |-> sl.osiglen, from |-> sl.from, to |-> sl.to]] ELSE << >>)
 =============================================================================
